@@ -3,11 +3,13 @@ import AldorVerif.Gen.EmitSites
 
 /-! # C18 — a successful exit means every requested output was written
 
-`Gen.EmitSites.sites` (generated from the clang AST of the repository's sources) lists every
-stdio call on an output stream with the flag `checked`.  The decision logic is honest when all
-sites are checked (`checked_implies_honest`); today none is (`all_sites_checked_refuted`), and a
-single unchecked site is enough for a run that exits 0 with an incomplete file
-(`unchecked_site_dishonest`, replayed on the real compiler by checks/parts/emit.py). -/
+`Gen.EmitSites.sites` (regenerated on every run from the clang AST of the tree under test) lists
+every stdio call on an output stream with the flag `checked`.  The decision logic is honest
+when all sites are checked (`checked_implies_honest`); they are (`all_sites_checked`, by
+`decide` over the generated table, so a new unchecked `fclose` or a removed check breaks it),
+hence `honest_today`.  A single unchecked site would be enough for a run that exits 0 with an
+incomplete file (`unchecked_site_dishonest`; that was the state before the repair
+"failed writes and closes of output files passed for success"). -/
 namespace AldorVerif.Emit
 open AldorVerif.Gen
 
@@ -96,26 +98,22 @@ theorem checked_implies_honest (sites : List EmitSites.Site) (hall : ∀ s ∈ s
 /-- the hypothesis of `checked_implies_honest`, for the repository's sources -/
 def all_sites_checked_statement : Prop := ∀ s ∈ EmitSites.sites, s.checked = true
 
-/-- **false today**: no output `fclose` (nor any write) is checked. -/
-theorem all_sites_checked_refuted : ¬ all_sites_checked_statement := by
+/-- every stdio call on an output stream is checked: its result is tested, or (write/flush) the
+function that closes that output consults `ferror` before the tested close. -/
+theorem all_sites_checked : all_sites_checked_statement := by
   unfold all_sites_checked_statement; decide +kernel
 
-/-- the unchecked close sites, by file, function and output kind -/
-theorem unchecked_close_sites :
-    ((EmitSites.sites.filter (fun s => decide (s.op = .close) && !s.checked)).map
-      (fun s => (s.file, s.func, s.kind))) =
-    [("emit.c", "emitTheAnnotatedAbSyn", "abn"), ("emit.c", "emitTheIncluded", "ai"),
-     ("emit.c", "emitTheIntermed", "ao"), ("lib.c", "libClose", "ao"),
-     ("emit.c", "emitTheAbSyn", "ap"), ("emit.c", "emitTheSymbolExpr", "asy"), ("emit.c", "emitTheOldAbSyn", "ax"),
-     ("emit.c", "emitTheC", "c"), ("emit.c", "emitTheC", "c"), ("emit.c", "emitTheFoamExpr", "fm"),
-     ("emit.c", "emitOneJavaFile", "java"), ("emit.c", "emitTheLisp", "lsp")] := by decide +kernel
+/-- **C18 for the sources as they are**: any outputs produced by executing the listed sites,
+under any faults: exit status 0 implies every requested output is complete. -/
+theorem honest_today (outs : List Output) (hfrom : ∀ o ∈ outs, FromSites EmitSites.sites o)
+    (faults : List (List Bool)) :
+    (run outs faults).exit = 0 → (run outs faults).allComplete = true :=
+  checked_implies_honest EmitSites.sites all_sites_checked outs hfrom faults
 
-/-- today not a single site is checked -/
-theorem no_site_checked : EmitSites.sites.all (fun s => !s.checked) = true := by decide +kernel
-
-/-- every output kind has an unchecked close -/
-theorem every_kind_has_unchecked_close :
-    ∀ k ∈ EmitSites.kinds, ∃ s ∈ EmitSites.sites, s.kind = k ∧ s.op = .close ∧ s.checked = false := by
+/-- the table is not vacuous: every output kind has a close site (and it is checked) -/
+theorem every_kind_has_checked_close :
+    (∀ k ∈ ["ai", "ap", "asy", "ao", "fm", "lsp", "c", "java"], k ∈ EmitSites.kinds) ∧
+    ∀ k ∈ EmitSites.kinds, ∃ s ∈ EmitSites.sites, s.kind = k ∧ s.op = .close ∧ s.checked = true := by
   decide +kernel
 
 /-- **one unchecked site suffices for a dishonest run**: open the file, execute the site, let it
@@ -132,14 +130,9 @@ theorem unchecked_site_dishonest (s : EmitSites.Site) (hs : s.checked = false) :
   · simp [run, runOutputs, runSteps, stepRun, stepOf, St.init, hs]
   · simp [run, runOutputs, runSteps, stepRun, stepOf, St.init, Result.allComplete]
 
-/-- the concrete witness replayed on the compiler: `fclose(fout)` of the C file in `emitTheC` -/
-theorem dishonest_today :
-    ∃ s ∈ EmitSites.sites, s.file = "emit.c" ∧ s.func = "emitTheC" ∧ s.op = .close ∧
-      (run [⟨s.kind, [openStep, stepOf s]⟩] [[false, true]]).exit = 0 ∧
-      (run [⟨s.kind, [openStep, stepOf s]⟩] [[false, true]]).allComplete = false := by
-  decide +kernel
-
-/-! non-vacuity: a fully checked site list exists and yields honest runs; a checked close notices -/
+/-! non-vacuity: a checked close notices a failure; unchecked steps let it pass -/
+example : ∃ o, FromSites EmitSites.sites o ∧ o.steps.length = 3 :=
+  ⟨⟨"c", [openStep, openStep, openStep]⟩, fun st hst => Or.inl (by simp at hst; exact hst), rfl⟩
 example : (run [⟨"c", [openStep, ⟨.write, true⟩, ⟨.close, true⟩]⟩] [[false, false, true]]).exit = 1 := by decide
 example : (run [⟨"c", [openStep, ⟨.write, false⟩, ⟨.close, true⟩]⟩] [[false, true, false]]) = ⟨0, [false]⟩ := by decide
 example : (run [⟨"c", [openStep, ⟨.write, false⟩, ⟨.close, false⟩]⟩, ⟨"fm", [openStep, ⟨.close, false⟩]⟩] [[], [false, true]])
